@@ -329,8 +329,28 @@ def main_check(prop, tier, seed, cases=None, wall=None, workers=None, out=sys.st
                                       hist_keys=getattr(o, 'HIST_KEYS', ('history',)))
             except runner.HarnessFailure:
                 small = case
-        # re-evaluate the minimised case to get its own violation record
-        rr = o.check_case(small, runner.execute)
+        # re-evaluate the minimised case to get its own violation record, and record the faults that actually fired
+        ftrace = []
+
+        def ex_rec(sc):
+            r = runner.execute(sc)
+
+            def walk(steps, n):
+                for i, st in enumerate(steps):
+                    if st is None:
+                        continue
+                    if st.get('fault_trace'):
+                        ftrace.append({'execution': n, 'step': i, 'op': st.get('op'), 'outcome': st.get('out'),
+                                       'trace': st['fault_trace']})
+                    if st.get('out') == 'crash':
+                        ftrace.append({'execution': n, 'step': i, 'op': st.get('op'), 'outcome': 'crash'})
+                    if st.get('body'):
+                        walk(st['body'], n)
+            ex_rec.n += 1
+            walk(r['steps'], ex_rec.n)
+            return r
+        ex_rec.n = 0
+        rr = o.check_case(small, ex_rec)
         vv = next((x for x in rr['violations'] if x['rule'] == v['rule']), None)
         if vv is None:
             small, vv = case, v
@@ -340,7 +360,7 @@ def main_check(prop, tier, seed, cases=None, wall=None, workers=None, out=sys.st
             small, vv = case, v
         path = write_replay(prop, small, vv, {'original_ops': shrink.count_ops(case['scenario'].get('history', [])),
                                               'minimised_ops': shrink.count_ops(small['scenario'].get('history', [])),
-                                              'occurrences': len(groups[key])})
+                                              'occurrences': len(groups[key]), 'fault_trace': ftrace[:40]})
         if path in seen_paths:
             continue
         seen_paths.add(path)
